@@ -219,9 +219,12 @@ package entities
 //@   ensures  len:   !d.isDecoding ==> len(buf) == d.len
 //@   ensures  cached: old(len(d.buffer) == d.len || d.isDecoding) ==> d.buffer == old(d.buffer)
 //@   ensures  bytes: !d.isDecoding && old(len(d.buffer) != d.len) ==> fresh(d.buffer) && bufOK(d, d.orderedElementList, len(d.orderedElementList))
+//@   ensures  encerr: !d.isDecoding && old(len(d.buffer) != d.len) && isnil(d.encodeErr) ==> (forall j in [0, len(d.orderedElementList)): old(encodable(d.orderedElementList[j])))
+//@   ensures  errkeep: old(len(d.buffer) == d.len || d.isDecoding) ==> d.encodeErr == old(d.encodeErr)
 //@   ensures  inv:   recInv(d)
-//@   modifies d.buffer
+//@   modifies d.buffer, d.encodeErr
 //@   loop 1 invariant cnt:  0 <= $i && $i <= len(d.orderedElementList)
+//@   loop 1 invariant err:  isnil(d.encodeErr) ==> (forall j in [0, $i): old(encodable(d.orderedElementList[j])))
 //@   loop 1 invariant off:  index == sumWire(d.orderedElementList, $i) && index <= d.len
 //@   loop 1 invariant buf:  fresh(d.buffer) && len(d.buffer) == d.len && !d.isDecoding
 //@   loop 1 invariant done: bufOK(d, d.orderedElementList, $i)
